@@ -188,7 +188,9 @@ def gen_items(rng, n=None, todo_p=0.6, p_comment=0.3, p_literal=0.2, kinds=("lin
 
 SEL_NAMES = ["a.go", "b.py", "C.java", "d.js", "e.ts", "f.kt", "g.groovy", "build.gradle", "sub/i.go", "sub/deep/j.py",
              "x.y.go", ".go", "sub/k.java"]
-OTHER_NAMES = ["notes.txt", "h.go.bak", "README.md", "noext", "k.GO", "sub/m.gox", "goo"]
+OTHER_NAMES = ["notes.txt", "h.go.bak", "README.md", "noext", "k.GO", "sub/m.gox", "goo",
+               # names that END with the letters of a selected extension but not with the extension
+               "cargo", "logo.svgo", "build.mjs", "x.mts", "w.ipy", "sub/mango", "dejava", "sub/api.cjs"]
 DEFAULT_EXTS = [".java", ".py", ".go", ".ts", ".js", ".kt", ".groovy", ".gradle"]
 
 def walk_key(name):
